@@ -33,7 +33,8 @@ def run(tier="quick", seed=0, use_cache=True):
         "pointers loaded from a leaf's next link are NULL-tested before "
         "dereference (dataflow). The Python iterators are memory-safe by "
         "construction (list iterators / index generators). What an "
-        "interleaving yields and the final contents are not decided.")
+        "interleaving yields and the final contents are not decided."
+        ' LEN-NONNEG: length slots return an error constant or a provably non-negative value. PY-LIST-IDENTITY: the Python leaves rebind _keys/_values only in whole-state operations. PY-CURSOR-EXC: every next() of the Python lazy sequences sits under a StopIteration handler.')
     res.assumptions = ["one accepted idiom: BTree_rangeSearch follows first-leaf next under self->len >= 2"]
     out = engine.map_tus("sa.props.C15", "tu_check", use_cache=use_cache)
     tot = {}
